@@ -134,6 +134,7 @@ def path_key(I, st, p):
     p = deref(I, st, p)
     if isinstance(p, Obj) and p.kind == 'path': return p.d['key']
     while isinstance(p, Ref): p = I.deref_load(st, p)
+    if isinstance(p, Obj) and p.kind == 'path': return p.d['key']
     if isinstance(p, Obj) and p.kind == 'str':
         if p.d.get('s') is not None: return p.d['s']
         return ''.join(x if isinstance(x, str) else '{%s}' % x for x in p.d.get('pieces', []))
